@@ -226,7 +226,9 @@ def slot_values(pos, atom_t, tier, limit=None):
             if member_none and pos == 'array':
                 out.append(('none-member', [av[0][1], None, av[-1][1]]))
         return out
-    if none_ok(atom_t):
+    if none_ok(atom_t) and not (pos == 'xmlattr' and validity.attrs_of(atom_t).get('min_occurs', 0) > 0) \
+            and not (pos == 'out_bare' and not validity.nillable(atom_t)):
+        # (a required attribute cannot be nil; the root of a bare message cannot be left out)
         out.append(('none', None))
     out.extend(av)
     if pos == 'xmldata':
